@@ -3,6 +3,9 @@
 //! Crash-point enumeration: the writer runs once on instrumented destinations; every prefix
 //! of the .shp op log (optionally with a byte-level cut inside the next write) is combined
 //! with every prefix of the .shx op log; a reader is opened on each image (pair).
+//! Second class ("live"): one destination dies for good at its k-th operation while the other
+//! keeps working, the caller stops at the first error and drops the writer; what both hold then
+//! is read the same way (the operations issued after the death differ from the undisturbed log).
 
 use crate::dump::{first_diff, Dump, D};
 use crate::gen::{self, type_name, Cfg, TYPES};
@@ -76,6 +79,78 @@ fn record(t: i32, placement: usize, shapes: &[Shape]) -> Workload {
         commits,
         calls,
     }
+}
+
+/// One destination dies for good at its k-th operation while the other one keeps working
+/// ("writing stops ... independently"); the caller stops at the first call that reports an error
+/// and lets the writer go (optionally after one more explicit finalize).
+struct Live {
+    shp: Vec<u8>,
+    shx: Vec<u8>,
+    /// shapes whose write returned Ok before the last finalize (explicit or in drop) whose
+    /// .shp part ran to its flush without a failed operation
+    floor: usize,
+    ok_writes: usize,
+    fired_in: Option<&'static str>,
+}
+
+fn live(placement: usize, shapes: &[Shape], shx_dies: bool, k: usize, explicit_finalize: bool) -> Live {
+    let (shp, shx) = if shx_dies { (Dest::new(), Dest::with_fault(k, true)) } else { (Dest::with_fault(k, true), Dest::new()) };
+    let mut calls: Vec<&'static str> = vec!["-"];
+    // (epoch, writes that had returned Ok when the call started)
+    let mut finalizes: Vec<(usize, usize)> = vec![];
+    let mut ok_writes = 0;
+    let mut epoch = 0;
+    {
+        let mut w = ShapeWriter::with_shx(shp.clone(), shx.clone());
+        let mut stopped = false;
+        let call = |name: &'static str, calls: &mut Vec<&'static str>, epoch: &mut usize| {
+            *epoch += 1;
+            shp.set_epoch(*epoch);
+            shx.set_epoch(*epoch);
+            calls.push(name);
+        };
+        if placement == 3 {
+            call("finalize", &mut calls, &mut epoch);
+            finalizes.push((epoch, ok_writes));
+            stopped = w.finalize().is_err();
+        }
+        for (i, s) in shapes.iter().enumerate() {
+            if stopped {
+                break;
+            }
+            call("write_shape", &mut calls, &mut epoch);
+            if write_one(&mut w, s).is_err() {
+                break;
+            }
+            ok_writes += 1;
+            if placement == 1 || (placement == 2 && i == shapes.len() / 2) {
+                call("finalize", &mut calls, &mut epoch);
+                finalizes.push((epoch, ok_writes));
+                stopped = w.finalize().is_err();
+            }
+        }
+        if explicit_finalize || placement == 4 {
+            call("finalize", &mut calls, &mut epoch);
+            finalizes.push((epoch, ok_writes));
+            let _ = w.finalize();
+        }
+        call("drop", &mut calls, &mut epoch);
+        finalizes.push((epoch, ok_writes));
+    }
+    let mut floor = 0;
+    for (e, n) in &finalizes {
+        let ops = shp.ops_in_epoch(*e);
+        let clean = !ops.is_empty() && !ops.iter().any(|o| matches!(o, Op::Failed(_)));
+        let header = ops.iter().any(|o| matches!(o, Op::Write(p, _) if *p < 100));
+        let flushed_last = ops.iter().rposition(|o| matches!(o, Op::Flush)).map(|f| !ops[f..].iter().any(|o| matches!(o, Op::Write(..)))).unwrap_or(false);
+        if clean && header && flushed_last {
+            floor = floor.max(*n);
+        }
+    }
+    let dying = if shx_dies { &shx } else { &shp };
+    let fired_in = dying.fault_epoch().map(|e| calls.get(e).copied().unwrap_or("?"));
+    Live { shp: shp.data(), shx: shx.data(), floor, ok_writes, fired_in }
 }
 
 fn phase(w: &Workload, ops: &[(usize, Op)], n_ops: usize) -> String {
@@ -310,6 +385,85 @@ pub fn run(ctx: &Ctx) -> Report {
                 }
             }
         }
+        // ---- one destination dies for good while the other keeps working, then the writer goes
+        if variant < 100 && ctx.only.as_ref().map(|o| o.contains(":live:")).unwrap_or(true) {
+            for shx_dies in [true, false] {
+                let n_ops = if shx_dies { w.shx_ops.len() } else { w.shp_ops.len() };
+                let kstep = if cfg!(miri) { 5 } else { 1 };
+                for k in (0..n_ops + 2).step_by(kstep) {
+                    for explicit in [false, true] {
+                        let side = if shx_dies { "shx-dies" } else { "shp-dies" };
+                        let case = format!("c11:t{}:p{}:v{}:live:{}:k{}:x{}", t, placement, variant, side, k, explicit as u8);
+                        if !ctx.want(&case) {
+                            continue;
+                        }
+                        let l = match panicmon::catch(|| live(placement, &shapes, shx_dies, k, explicit)) {
+                            Ok(l) => l,
+                            Err(p) => {
+                                rep.eval();
+                                rep.violation(&format!("live:{}/writer/panic", side), &case, J::obj(vec![("type", J::s(type_name(t))), ("what", J::s(p.class()))]));
+                                continue;
+                            }
+                        };
+                        rep.eval();
+                        rep.count("live_runs", 1);
+                        let ph = l.fired_in.unwrap_or("never");
+                        rep.class(&format!("live:{}:{}", side, ph));
+                        if l.floor > 0 {
+                            rep.count("live_runs_with_a_committed_floor", 1);
+                        }
+                        let detail = |what: String, route: &str| {
+                            J::obj(vec![
+                                ("type", J::s(type_name(t))),
+                                ("finalize_placement", J::s(PLACEMENTS[placement])),
+                                ("shapes_offered", J::UInt(n as u64)),
+                                ("writes_that_returned_ok", J::UInt(l.ok_writes as u64)),
+                                ("dying_destination", J::s(side)),
+                                ("dies_at_its_operation", J::UInt(k as u64)),
+                                ("call_during_which_it_died", J::s(ph)),
+                                ("explicit_finalize_before_drop", J::Bool(explicit)),
+                                ("committed_by_a_finalize_that_completed_on_the_shp", J::UInt(l.floor as u64)),
+                                ("route", J::s(route)),
+                                ("what", J::s(what)),
+                                ("shp_hex", J::bytes_hex(&l.shp)),
+                                ("shx_hex", J::bytes_hex(&l.shx)),
+                            ])
+                        };
+                        match panicmon::catch(|| read_plain(&l.shp, cap)) {
+                            Err(p) => rep.violation(&format!("live:{}:{}/no-index/panic", side, ph), &case, detail(p.class(), "ShapeReader::new")),
+                            Ok(Seen::OpenErr) => {
+                                if l.floor > 0 {
+                                    rep.violation(&format!("live:{}:{}/no-index/lost-committed", side, ph), &case, detail("open failed although a finalize had completed on the .shp".into(), "ShapeReader::new"));
+                                }
+                            }
+                            Ok(Seen::Items(items)) => match prefix_ok(&items, &w.want) {
+                                Err(e) => rep.violation(&format!("live:{}:{}/no-index/{}", side, ph, e.split('.').next().unwrap()), &case, detail(e, "ShapeReader::new")),
+                                Ok(got) => {
+                                    if got < l.floor {
+                                        rep.violation(&format!("live:{}:{}/no-index/lost-committed", side, ph), &case, detail(format!("{} shapes readable, {} were committed", got, l.floor), "ShapeReader::new"));
+                                    }
+                                }
+                            },
+                        }
+                        match panicmon::catch(|| read_indexed(&l.shp, &l.shx, cap)) {
+                            Err(p) => rep.violation(&format!("live:{}:{}/index/panic", side, ph), &case, detail(p.class(), "ShapeReader::with_shx")),
+                            Ok((Seen::OpenErr, _)) => {}
+                            Ok((Seen::Items(items), nth)) => {
+                                if let Err(e) = prefix_ok(&items, &w.want) {
+                                    rep.violation(&format!("live:{}:{}/index/{}", side, ph, e.split('.').next().unwrap()), &case, detail(e, "ShapeReader::with_shx"));
+                                }
+                                for (i, g) in &nth {
+                                    if !w.want.get(*i).map(|x| first_diff(g, x).is_none()).unwrap_or(false) {
+                                        rep.violation(&format!("live:{}:{}/index-nth/wrong-shape", side, ph), &case, detail(format!("read_nth_shape({}) is not record {}", i, i), "read_nth_shape"));
+                                        break;
+                                    }
+                                }
+                            }
+                        }
+                    }
+                }
+            }
+        }
         rep.sample(|| {
             J::obj(vec![
                 ("type", J::s(type_name(t))),
@@ -324,7 +478,7 @@ pub fn run(ctx: &Ctx) -> Report {
         });
     });
     if ctx.only.is_none() {
-        for (k, req) in [("shp_images", 1000u64), ("image_pairs", 10000), ("images_with_a_committed_floor", 100), ("pairs_yielding_items", 100)] {
+        for (k, req) in [("shp_images", 1000u64), ("image_pairs", 10000), ("images_with_a_committed_floor", 100), ("pairs_yielding_items", 100), ("live_runs", 1000), ("live_runs_with_a_committed_floor", 100)] {
             let v = rep.counters.get(k).copied().unwrap_or(0);
             rep.guard(k, v, if cfg!(miri) { 1 } else { req });
         }
